@@ -66,7 +66,8 @@ func buildEras(seed int64) (*Scenario, error) {
 	b.OPR(102, 11+rng.Intn(3), hprice(seed, 102), nil) // v1: 10 winners, names PNT/XPD/XPT are no tickers
 	bobBurn := 300 * fct
 	b.Burn(103, bob, bobBurn)
-	b.Burn(103, alice, 10*fct) // a second burn of the same address
+	b.Blk(103).Factoid[0].TimestampSaltMs = uint64(b.TS(103))*1000 + 7*60*1000 + 3500 // 7 min 3.5 s into the block
+	b.Burn(103, alice, 10*fct)                                                        // a second burn of the same address
 	aliceFCT := aliceBurn + 10*fct
 	b.OPR(104, 9, hprice(seed, 104), nil) // nine records: graded, no winners
 	garbageOPR(b, 104)
@@ -97,15 +98,30 @@ func buildEras(seed int64) (*Scenario, error) {
 	b.TxE(111, 111, "bal-1", carol, Xfer(C, FCT, carolFCT-1, A))
 	aliceFCT += carolFCT - 1
 	b.TxE(111, -1, "batch overdrawing in its second transaction", alice, Xfer(A, FCT, aliceFCT-5, Bo), Xfer(A, FCT, 6, Bo))
-	k1 := b.TxE(111, 113, "conversion held to the next rated block", alice, Conv(A, FCT, 200*fct, USD))
+	k1 := b.TxE(111, 113, "conversion held to the next rated block", alice, Conv(A, FCT, 300*fct, USD))
 	b.TxE(111, -4, "PEG while its price is zero", alice, Conv(A, FCT, fct, PEG))
 	b.TxE(111, -1, "conversion without funds", dave, Conv(D, FCT, 1, USD))
 	b.TxE(112, 112, "bal", carol, Xfer(C, FCT, 1, A)) // 112 has no OPR entries
 	aliceFCT++
 	b.TxE(112, 112, "transfer while a conversion of the same address is held", alice, Xfer(A, FCT, 50*fct, Bo))
 	aliceFCT -= 50 * fct
+	// several receivers, one of them twice, one the sender itself; entries under later minute markers
+	erin := Key("erin", 0)
+	Er := erin.FAAddress()
+	i1 := b.TxAt(112, 3, b.TS(112), alice, XferN(A, FCT, Out(Bo, fct), Out(Er, 2*fct), Out(Bo, 3*fct), Out(A, 4*fct), Out(Er, 30*fct)))
+	b.Expect(112, i1, 112, "five outputs: a receiver twice, the sender itself (minute 3)")
+	// in-batch credit then debit: the second transaction spends what the first sent to the sender itself
+	i2 := b.TxAt(112, 7, b.TS(112)+400, erin, Xfer(Er, FCT, 32*fct, Er), Xfer(Er, FCT, 32*fct, Bo))
+	b.Expect(112, i2, 112, "self transfer of everything, then everything to bob (minute 7)")
+	// debit then an uncovered credit-free debit: rejected by the simulation
+	i3 := b.TxAt(112, 10, b.TS(112)+600, bob, Xfer(Bo, FCT, 30*fct, A), Xfer(Bo, FCT, 30*fct, Bo), Xfer(Bo, FCT, 30*fct, A))
+	b.Expect(112, i3, 112, "30 out, 30 to itself, 30 out again with 86 at hand (minute 10)")
+	i4 := b.TxAt(112, 10, b.TS(112)+600, bob, Xfer(Bo, FCT, 20*fct, A), Xfer(Bo, FCT, 5*fct, Bo), Xfer(Bo, FCT, 7*fct, A))
+	b.Expect(112, i4, -1, "20 out, 5 to itself, 7 out with 26 at hand: every transaction is covered, the batch is not")
+	// a conversion whose output is spent by the next transaction of the batch
+	b.TxE(113, 114, "conversion of amount 0 by an address holding nothing", erin, Conv(Er, FCT, 0, USD))
 	opr(113) // executes the batches held at 111
-	aliceFCT -= 200 * fct
+	aliceFCT -= 300 * fct
 	_ = k1
 
 	// ---- 114..117: PEG priced by the equation ---------------------------------------
@@ -116,6 +132,12 @@ func buildEras(seed int64) (*Scenario, error) {
 	b.TxE(114, 115, "conversion and transfer in one batch (held as a whole)", alice, Conv(A, USD, fct, fat2.PTickerJPY), Xfer(A, FCT, 3*fct, C))
 	opr(115)
 	b.TxE(116, -3, "into pFCT, executed after OneWaypFCTConversions", alice, Conv(A, USD, 2*fct, FCT))
+	// frank gets exactly 100 pUSD and 10 pFCT, then spends all pUSD, converts, and spends part of the proceeds
+	frank := Key("frank", 0)
+	Fr := frank.FAAddress()
+	b.TxE(115, 115, "100 pUSD and 10 pFCT for frank", alice, Xfer(A, USD, 100*fct, Fr), Xfer(A, FCT, 10*fct, Fr))
+	b.TxE(116, 118, "spend all pUSD, convert pFCT into pUSD, spend 30 of the proceeds", frank,
+		Xfer(Fr, USD, 100*fct, Bo), Conv(Fr, FCT, 10*fct, USD), Xfer(Fr, USD, 30*fct, Bo))
 	// 117: no entries at all
 
 	// ---- 118..121: pFCT one-way -------------------------------------------------------
@@ -180,7 +202,7 @@ func buildEras(seed int64) (*Scenario, error) {
 	// ---- 150..159: developer rewards / SPR signatures (v6, 10 % band), old burn address zeroed
 	opr(150)
 	spr(150)
-	b.TxE(152, 152, "PEG to the old burn address after it was zeroed", alice, Xfer(A, PEG, fct, mustFA(ZeroAddrFA)))
+	b.TxE(152, 152, "PEG to the all-zero address before 2.0.2: destroyed", alice, Xfer(A, PEG, fct, mustFA(ZeroAddrFA)))
 	opr(153)
 	spr(153)
 	b.TxE(157, 158, "into a small asset before it becomes one-way", alice, Conv(A, USD, 2*fct, fat2.PTickerDCR))
